@@ -170,6 +170,8 @@ func c04Program(e *Env, p *N, id string) {
 	bad, _, maxH := c04CheckCode(e, code)
 	e.R.H("max_height", fmt.Sprintf("%02d", min(maxH, 40)))
 	if len(bad) == 0 {
+		// accepted: the certificate must describe the real VM's heights, instruction by instruction
+		c04HeightsCheck(e, src, code, 5*time.Second)
 		return
 	}
 	// Which known guard does the program fall under?
